@@ -111,10 +111,10 @@ PROPS = {
     },
     "C04": {
         "title": "Encoding is deterministic",
-        "units": ["V7_types"],
+        "units": ["V7_types", "V8_lower"],
         "census": True,
-        "obligations": ["V7_types.ModuleTypes.new.*", "V7_types.fn:ModuleTypes::new", "V7_types.add_type.*", "V7_types.fn:ModuleTypes::add_type"],
-        "glue": ["the HashMap iteration sites listed as UNCOVERED in evidence.coverage.hashmap_iteration_census (the per-block resolution maps of resolve_special_instrumentation, ModuleTypes::iter) are in code that is not under contract",
+        "obligations": ["V8_lower.flush_*", "V8_lower.fn:Module::flush_*", "V8_lower.resolve_bodies.*", "V8_lower.fn:resolve_bodies", "V7_types.ModuleTypes.new.*", "V7_types.fn:ModuleTypes::new", "V7_types.add_type.*", "V7_types.fn:ModuleTypes::add_type"],
+        "glue": ["the HashMap iteration sites listed as UNCOVERED in evidence.coverage.hashmap_iteration_census (ModuleTypes::iter, handed to library users, not used by encode) are in code that is not under contract; the three sites in resolve_special_instrumentation are under contract (V8: the code flushed at an else / end does not depend on the order in which the per-mode registry is walked)", "TRUSTED: derived Hash / Eq of InstrumentationMode obey the HashMap key model",
                  "everything else in encode_internal walks Vecs in index order; that claim is by reading, not by proof"],
         "design_ref": "DESIGN.md §5 C04",
         "level_text": "In the verifier's logic the iteration order of a HashMap is unspecified, so a function that iterates one verifies only if its postcondition pins the result whatever the order. That obligation is discharged for ModuleTypes::new (the lookup map maps each type to the least id carrying it) and add_type is a function of the map; the other iteration sites are listed, not proved.",
@@ -284,7 +284,7 @@ PROPS = {
     "C19": {
         "title": "Block exit probes fire when the block or arm falls through",
         "units": ["V8_lower"],
-        "obligations": V8_BASE + ["V8_lower.lower_block_exit_opener.*", "V8_lower.fn:Module::lower_block_exit_opener", "V8_lower.resolve_bodies.*", "V8_lower.fn:resolve_bodies", "V8_lower.plan_resolution_block_exit.*", "V8_lower.fn:plan_resolution_block_exit"],
+        "obligations": V8_BASE + ["V8_lower.flush_*", "V8_lower.fn:Module::flush_*", "V8_lower.lower_block_exit_opener.*", "V8_lower.fn:Module::lower_block_exit_opener", "V8_lower.resolve_bodies.*", "V8_lower.fn:resolve_bodies", "V8_lower.plan_resolution_block_exit.*", "V8_lower.fn:plan_resolution_block_exit"],
         "glue": LOWER_GLUE + ["ASSUMED: the contracts of save_not_flagged_body_to_resolve{,_inner} (HashMap entry().and_modify(closure).or_insert() chains): they add the body, unflagged, under (block, mode) and touch nothing else"],
         "design_ref": "DESIGN.md §5 C17-C20",
         "level_text": "Placement only. Registration: the probe of an `if` is due at its else-or-end, that of a block / loop / else before the `end` of that very construct (innermost open one), unflagged, nothing for other instructions. Emission: the code saved for a construct's `else`/`end` is emitted into the requested list of that instruction as (flag-guarded chain; unconditional bodies), nothing else changes. The driver that pairs the two (block stack, resolve at Else/End) is glue.",
@@ -292,7 +292,7 @@ PROPS = {
     "C20": {
         "title": "Semantic-after probes fire exactly once after the instruction",
         "units": ["V8_lower"],
-        "obligations": V8_BASE + ["V8_lower.lower_semantic_after_branch.*", "V8_lower.fn:Module::lower_semantic_after_branch", "V8_lower.create_bool_flag.*", "V8_lower.fn:create_bool_flag", "V8_lower.fn:add_local", "V8_lower.resolve_bodies.*", "V8_lower.fn:resolve_bodies", "V8_lower.plan_resolution_semantic_after.*", "V8_lower.fn:plan_resolution_semantic_after",
+        "obligations": V8_BASE + ["V8_lower.flush_*", "V8_lower.fn:Module::flush_*", "V8_lower.lower_semantic_after_branch.*", "V8_lower.fn:Module::lower_semantic_after_branch", "V8_lower.create_bool_flag.*", "V8_lower.fn:create_bool_flag", "V8_lower.fn:add_local", "V8_lower.resolve_bodies.*", "V8_lower.fn:resolve_bodies", "V8_lower.plan_resolution_semantic_after.*", "V8_lower.fn:plan_resolution_semantic_after",
                                    "V8_lower.kf.resolve_bodies.*", "V8_lower.lemma.emitted_chain_is_well_nested_up_to_two_flagged_bodies", "V8_lower.fn:lemma_chain_agrees_up_to_two"],
         "glue": LOWER_GLUE + ["ASSUMED: the contracts of save_{not_,}flagged_body_to_resolve (HashMap entry chains) and of the br_table target loop (a for_each closure, named brtable_save_targets by rule R11): they add the body under (block, mode), flagged with the given local or unflagged, and touch nothing else",
                               "TRUSTED model of wasmparser::BrTable: targets() yields br_targets(t), default() is br_default(t)"],
